@@ -24,4 +24,16 @@ PROPS = {
         "level_text": "Theorems in Coq over all contents and all operation histories (induction over the history, no bound): line/column are a function of the cursor position (equal to a fresh forward scan), read/unread/unread-many/peek/reset are cursor operations, peeked coordinates are those after the next read. The scanner is a small pure state machine, so the whole of it is inside the model; the model is tied to io/StringScanner.go by running both on the same histories (six observables after every operation).",
         "level_note": "Trusted: Coq kernel + vm_compute; the hand-written model of StringScanner (Scanner.v) whose agreement with the Go code is checked on generated histories only (hundreds per quick run, exhaustive small scope + 20,000 random in the thorough run); extraction (ExtrOcamlBasic) and the OCaml driver; the Go harness. No axioms.",
     },
+    "C17": {
+        "run_module": "RunC17", "model": "model_C17",
+        "model_targets": ["RunC17.vo"],
+        "proof_files": ["CharMapProofs.v"],
+        "kernel_cases": {"quick": 200, "thorough": 400},
+        "exhaustive_in": {"quick": True, "thorough": True},
+        "explanation": "theorem charmap_from_empty: for every history of registrations and clears and every character, lookup = latest covering registration (induction over the history); the 256-entry table + interval list of CharReferenceMap.go is modelled completely and compared with the implementation on exhaustive short histories over the property's boundary set and random longer ones",
+        "assumptions": ["references are compared by identity of four fixed values (nil, A, B, C)"],
+        "design_ref": "DESIGN.md 5.3",
+        "level_text": "Theorem in Coq for all histories (unbounded) of AddInterval/AddDefaultInterval/Clear and all characters: Lookup returns the reference of the latest covering registration since the last Clear, nothing outside [0,0xFFFE]; uniform across the 0x100 split. The map is a small pure data structure entirely inside the model; correspondence runs exhaustive histories of length <=2 (quick) / <=3 (thorough) over the boundary set plus random ones against CharReferenceMap.go.",
+        "level_note": "Trusted: Coq kernel + vm_compute; hand-written model CharMap.v tied to the Go code by correspondence on generated histories only; extraction + OCaml driver; Go harness. No axioms. The dispatch consequence for tokenizers (GetCharacterState) is covered with the tokenizer properties C04/C13, which build their character tables through this model from the tables extracted from the source.",
+    },
 }
